@@ -137,8 +137,16 @@ def se3s(draw, maxnorm=1e3, ang=None):
     if kind == "identity":
         R = np.eye(3)
     elif kind == "halfturn":
-        if draw(st.booleans()):
+        which = draw(st.integers(0, 3))
+        if which <= 1:
             n = draw(unit_vectors())
+        elif which == 2:
+            # next to a coordinate axis: the other two components 1e-8 .. 1e-2 (the pivots 1 + R_kk of the half-turn
+            # logarithm are then tiny but not zero)
+            k = draw(st.integers(0, 2))
+            v = np.array([draw(signed_log_uniform(1e-8, 1e-2)) for _ in range(3)])
+            v[k] = 1.0 if draw(st.booleans()) else -1.0
+            n = v / np.linalg.norm(v)
         else:
             # axes with small-integer direction ratios: the rounded trace of 2nn^T - I then lands on -1, one or two
             # ulps above AND below it (random float axes hardly ever give two ulps below), i.e. on either side of every
